@@ -88,7 +88,8 @@ Expect(Str(_, _), RT(_, _), Rad(_, _, _), Fix(_, _, _, _), Ex(_, _, _, _), Pr(_,
 
 (* cases whose result ES5 leaves to the implementation are not generated *)
 Open(c) ==
-    CASE c.op \in {"Number", "plus", "parseFloat", "lit", "litstr"} -> S!DecimalOpen(c.s)
+    CASE c.op \in {"Number", "plus", "parseFloat"} -> S!DecimalOpen(c.s)
+      [] c.op \in {"lit", "litstr"} -> S!LitOpen(c.s)
       [] c.op \in {"parseInt", "pistr"} -> S!ParseIntOpen(c.s, c.a)
       [] OTHER -> FALSE
 
